@@ -286,6 +286,20 @@ func (w *World) Concretise(log string, r Req, stored *CP) Concrete {
 		id = ref.LogID("verif.example/" + w.P.RunTag + "/not-configured")
 	}
 	c := Concrete{LogID: id, OldSize: w.OldSize(r.Old), Size: w.Sigma[r.N], Root: w.Root(l, r.B, r.N)}
+	aliasNote := ""
+	if r.B == w.P.NBranch && r.Auth == "good" {
+		// a junk root is "a log-signed root that is the root of no tree OF THAT SIZE": besides random bytes it is also
+		// rendered as a root that IS known - the stored checkpoint's root, or a generated tree's root - at another size
+		switch k := w.Rng.Intn(4); {
+		case k == 0 && stored != nil && !stored.None && stored.N != r.N && stored.N <= w.P.MaxSize && stored.B <= w.P.NBranch:
+			c.Root, aliasNote = w.Root(l, stored.B, stored.N), "/junk=stored-root-at-another-size"
+		case k == 1 && w.P.MaxSize >= 1 && stored != nil && !stored.None && stored.N != r.N:
+			m := (r.N + 1 + w.Rng.Intn(w.P.MaxSize)) % (w.P.MaxSize + 1)
+			if m != r.N {
+				c.Root, aliasNote = w.Root(l, w.Rng.Intn(w.P.NBranch), m), "/junk=tree-root-of-another-size"
+			}
+		}
+	}
 	ext := ""
 	if r.Ext == 1 {
 		ext = extText
@@ -387,7 +401,7 @@ func (w *World) Concretise(log string, r Req, stored *CP) Concrete {
 		c.CP = []byte(sb.String())
 	}
 	c.Proof = w.proof(l, r, stored)
-	c.Note = renderNote
+	c.Note = renderNote + aliasNote
 	return c
 }
 
